@@ -35,10 +35,11 @@ ISqrtBetween(n, lo, hi) ==      \* largest r in lo..hi with r*r <= n, given lo*l
 ISqrt(n) == ISqrtBetween(n, 0, 46340)          \* 46340^2 < 2^31 <= 46341^2
 CoordBound(M, r2, i) == ISqrt((r2 * CofDiag(M, i)) \div Det(M))
 \* cells L such that D*L + (difference of two positions in the cell) can have squared length <= r2 (grid units)
+\* (|x_i| <= bound and |u_j - u_i| < D give |L_i| <= bound \div D + 1; each range is built once)
+CellRange(w, r2, i) == LET b == CoordBound(w.M, r2, i) \div w.D + 1 IN (-b)..b
 CellBox(w, r2) ==
-  LET B == [i \in 1..w.dim |-> CoordBound(w.M, r2, i) \div w.D + 2]
-      Bmax == FoldLeft(LAMBDA m, i : IF B[i] > m THEN B[i] ELSE m, 0, Idx(w.dim))
-  IN {L \in Box(w.dim, Bmax) : \A i \in 1..w.dim : L[i] <= B[i] /\ -L[i] <= B[i]}
+  IF w.dim = 2 THEN {<<a, b>> : a \in CellRange(w, r2, 1), b \in CellRange(w, r2, 2)}
+  ELSE {<<a, b, c>> : a \in CellRange(w, r2, 1), b \in CellRange(w, r2, 2), c \in CellRange(w, r2, 3)}
 
 Len2(w, x) == Quad(w.M, x, x)
 Disp(w, c, i, j, L) == VAdd(VScale(w.D, L), VSub(w.basis[c][j], w.basis[c][i]))
@@ -53,45 +54,48 @@ JumpSet(w, c, cut2x2) ==
 Shells(w, J) == {Len2(w, jmp[3]) : jmp \in J}
 
 \* ------------------------------------------------------------------ obstruction
-\* vectors y (grid units) from the start site of the jump to the atoms of species c2 that can matter:
-\* |y| <= |x| + radius, hence y^2 <= 2 x^2 + 2 radius^2 <= r2max
-NearAtoms(w, c, i, c2, r2max) ==
-  LET cells == CellBox(w, r2max) IN
-  {y \in UNION {{VAdd(VScale(w.D, L), VSub(w.basis[c2][a], w.basis[c][i])) : L \in cells} : a \in DOMAIN w.basis[c2]} :
-      Len2(w, y) <= r2max}
-\* perpendicular distance^2 from the line through the path, times x^2:  y^2 x^2 - (y.x)^2
-PerpNum(w, x, y) == Len2(w, y) * Len2(w, x) - Quad(w.M, y, x) * Quad(w.M, y, x)
+\* An atom at y (grid units, measured from the start site of the jump) and a jump x.  With  y2 = y.y,  s = y.x,
+\* x2 = x.x (all integers):  the foot of the perpendicular lies on the path iff 0 <= s <= x2; the squared distance
+\* to the line is (y2 x2 - s^2) / x2; the squared distances to the two ends are y2 and y2 - 2 s + x2.
+\* radius^2 = rn / rd.
 \* "projection of the atom falls on the path and its distance to the path is <= radius"; closed / open in the projection
-InCylClosed(w, x, y, rn, rd) ==
-  LET s == Quad(w.M, y, x) x2 == Len2(w, x) IN 0 <= s /\ s <= x2 /\ PerpNum(w, x, y) * rd <= rn * x2
-InCylOpen(w, x, y, rn, rd) ==
-  LET s == Quad(w.M, y, x) x2 == Len2(w, x) IN 0 < s /\ s < x2 /\ PerpNum(w, x, y) * rd <= rn * x2
+InCylClosed(y2, s, x2, rn, rd) == 0 <= s /\ s <= x2 /\ (y2 * x2 - s * s) * rd <= rn * x2
+InCylOpen(y2, s, x2, rn, rd) == 0 < s /\ s < x2 /\ (y2 * x2 - s * s) * rd <= rn * x2
 \* "distance from the atom to the closed segment is <= radius" (adds the two end caps)
-InCapsule(w, x, y, rn, rd) ==
-  \/ InCylClosed(w, x, y, rn, rd)
-  \/ Len2(w, y) * rd <= rn
-  \/ Len2(w, VSub(y, x)) * rd <= rn
+InCapsule(y2, s, x2, rn, rd) ==
+  \/ InCylClosed(y2, s, x2, rn, rd)
+  \/ y2 * rd <= rn
+  \/ (y2 - 2 * s + x2) * rd <= rn
+
+\* atoms of species c2 that can matter for a jump from site i of species c: |y| <= |x| + radius, hence
+\* y^2 <= 2 x^2 + 2 radius^2 <= r2max.  Each is kept as <<M y, y2>> (then s = (M y) . x).
+NearAtoms(w, c, i, c2, r2max) ==
+  LET cells == CellBox(w, r2max)
+      ys == UNION {{VAdd(VScale(w.D, L), VSub(w.basis[c2][a], w.basis[c][i])) : L \in cells} : a \in DOMAIN w.basis[c2]}
+  IN {e \in {<<MV(w.M, y), Len2(w, y)>> : y \in ys} : e[2] <= r2max}
 
 \* rad: per species <<rn, rd>> (radius^2 = rn/rd in grid units); the entry of species c itself is ignored.
 \* band b: the radius^2 is widened / narrowed by the factor (b+1)/b, (b-1)/b to make the verdict robust against ties.
-\* All atoms that can matter for any jump shorter than the cutoff: near[i][c2] = vectors from site i of species c to
-\* the atoms of species c2 within |y|^2 <= 2 cutoff^2 + 2 (widened radius)^2   (computed once per query)
+\* near[i][c2]: the atoms that can matter for any jump shorter than the cutoff (computed once per query)
 R2Max(cut2x2, rad, c2, b) == cut2x2 + 2 + 2 * ((rad[c2][1] * (b + 1)) \div (rad[c2][2] * b) + 1)
 NearTable(w, c, cut2x2, rad, b) ==
   [i \in DOMAIN w.basis[c] |-> [c2 \in DOMAIN w.basis |->
       IF c2 = c THEN {} ELSE NearAtoms(w, c, i, c2, R2Max(cut2x2, rad, c2, b))]]
 \* obstructed under the MOST obstructive reading: capsule, widened radius
 BlockedMost(w, c, jmp, rad, b, near) ==
+  LET x2 == Len2(w, jmp[3]) IN
   \E c2 \in DOMAIN w.basis : c2 # c /\
-     \E y \in near[jmp[1]][c2] : InCapsule(w, jmp[3], y, rad[c2][1] * (b + 1), rad[c2][2] * b)
+     \E e \in near[jmp[1]][c2] : InCapsule(e[2], Dot(e[1], jmp[3]), x2, rad[c2][1] * (b + 1), rad[c2][2] * b)
 \* obstructed under the LEAST obstructive reading: projection strictly inside the path, narrowed radius
 BlockedLeast(w, c, jmp, rad, b, near) ==
+  LET x2 == Len2(w, jmp[3]) IN
   \E c2 \in DOMAIN w.basis : c2 # c /\
-     \E y \in near[jmp[1]][c2] : InCylOpen(w, jmp[3], y, rad[c2][1] * (b - 1), rad[c2][2] * b)
+     \E e \in near[jmp[1]][c2] : InCylOpen(e[2], Dot(e[1], jmp[3]), x2, rad[c2][1] * (b - 1), rad[c2][2] * b)
 \* the reading documented by the library: projection within the closed path, distance to the path <= radius
 BlockedDoc(w, c, jmp, rad, near) ==
+  LET x2 == Len2(w, jmp[3]) IN
   \E c2 \in DOMAIN w.basis : c2 # c /\
-     \E y \in near[jmp[1]][c2] : InCylClosed(w, jmp[3], y, rad[c2][1], rad[c2][2])
+     \E e \in near[jmp[1]][c2] : InCylClosed(e[2], Dot(e[1], jmp[3]), x2, rad[c2][1], rad[c2][2])
 
 \* ------------------------------------------------------------------ symmetry
 \* image of a jump of species c under g = <<R, t>>: sites go to their image sites, the displacement rotates
